@@ -1,6 +1,10 @@
 package main
 
-import "fmt"
+import (
+	"bytes"
+	"fmt"
+	"hash/crc32"
+)
 
 // selftestMain: reference self-test (RFC vectors, primality of the computed
 // MODP primes, vectors pinned in the repository's tests).
@@ -9,6 +13,55 @@ func selftestMain(args []string) int {
 		fmt.Println("selftest FAILED:", err)
 		return 2
 	}
+	if err := selfTestChecksumFaults(); err != nil {
+		fmt.Println("selftest FAILED:", err)
+		return 2
+	}
 	fmt.Println("selftest ok: reference peer agrees with RFC 2202/4231/3602 vectors, MODP primes are safe primes, KDF matches the repository's pinned vector")
 	return 0
+}
+
+// selfTestChecksumFaults: the ckpreserve fault really keeps the checksums it claims to keep, and really changes the octets.
+func selfTestChecksumFaults() error {
+	r := NewRng(77)
+	cast := crc32.MakeTable(crc32.Castagnoli)
+	for i := 0; i < 2000; i++ {
+		d := r.Bytes(r.Range(40, 200))
+		f := genChecksumPreserving(r, len(d))
+		e := clone(d)
+		if !checksumPreservingEdit(e, f.Val, f.Off, f.Len, f.Bit) {
+			continue
+		}
+		if bytes.Equal(d, e) {
+			return fmt.Errorf("ckpreserve variant %d left the datagram unchanged", f.Val)
+		}
+		sum := func(b []byte) (s, x int) {
+			for _, c := range b {
+				s += int(c)
+				x ^= int(c)
+			}
+			return
+		}
+		s1, x1 := sum(d)
+		s2, x2 := sum(e)
+		switch f.Val {
+		case 0:
+			if crc32.ChecksumIEEE(d) != crc32.ChecksumIEEE(e) {
+				return fmt.Errorf("ckpreserve variant 0 changed the IEEE CRC-32")
+			}
+		case 1:
+			if crc32.Checksum(d, cast) != crc32.Checksum(e, cast) {
+				return fmt.Errorf("ckpreserve variant 1 changed the Castagnoli CRC-32")
+			}
+		case 4, 5:
+			if s1 != s2 {
+				return fmt.Errorf("ckpreserve variant %d changed the octet sum", f.Val)
+			}
+		case 6:
+			if x1 != x2 {
+				return fmt.Errorf("ckpreserve variant 6 changed the xor of the octets")
+			}
+		}
+	}
+	return nil
 }
